@@ -79,7 +79,13 @@ CoreSet == SeqSet(CoreClasses)
 \*   small   : in-range small positive integers (the values with which a constructor or an index-taking method succeeds: bounds
 \*             arithmetic), and a string that is the JSON text of nested arrays (the text a reviver walks)
 SmallClasses == <<"one", "three", "sjson">>
-ExtraSet == SeqSet(MirrorClasses) \cup SeqSet(KindClasses) \cup SeqSet(SmallClasses) \cup Routed
+\*   key     : strings of characters that the HOST's character predicates and conversions accept (str.isdigit / isdecimal / isnumeric,
+\*             int(), float()) but the ECMAScript grammar of numeric strings and array indices does not: superscript two, circled two
+\*             (isdigit, not decimal: int() raises), ARABIC-INDIC three (decimal digit of another script: int() answers 3), vulgar one
+\*             half (isnumeric only), '1_0' (the host's digit separator).  As property keys of element reads / stores / in / delete
+\*             (operator forms) and as arguments of every function they are names / NaN, never indices or numbers.
+KeyClasses == <<"k_sup", "k_circ", "k_arab", "k_frac", "k_us">>
+ExtraSet == SeqSet(MirrorClasses) \cup SeqSet(KindClasses) \cup SeqSet(SmallClasses) \cup Routed \cup SeqSet(KeyClasses)
 PlainSet == CoreSet \cup ExtraSet
 \* Hostile classes: arguments with behaviour or structure (rendered by the driver, HOSTILE_SRC of checks/c04_driver.py).
 \*   fn_<m>     : a callback that MUTATES the array being iterated (the receiver, its `this`, the array handed to it as third / fourth
@@ -248,7 +254,9 @@ GridLaw == ph = "start" =>
              /\ Huge \cap AllRouted = {rc \in AllRouted : \E rt \in SeqSet(Routes) : rc = rt \o "_p31"} /\ Huge \subseteq ArgSet \cup AllRouted
              /\ \E hv \in HugeVals \ Huge : hv \in Named
              /\ \E av \in ArgVectors : ~ShortVector(av)
-             /\ Cardinality(PlainSet) = Len(CoreClasses) + Len(MirrorClasses) + Len(KindClasses) + Len(SmallClasses) + Cardinality(Routed)
+             /\ Cardinality(PlainSet) = Len(CoreClasses) + Len(MirrorClasses) + Len(KindClasses) + Len(SmallClasses) + Cardinality(Routed) + Len(KeyClasses)
+             /\ \A kc \in SeqSet(KeyClasses) : <<kc>> \in ArgVectors /\ <<kc, "zero">> \in ArgVectors /\ OpPair(<<kc, "zero">>) /\ SeqHas(VecGroups(<<kc>>), "variants")
+             /\ \A op \in Operators : op.n \in {"get", "set", "set1", "delete", "in"} => op.g = "any"
              /\ PlainSet \cap HostileSet = {}
              /\ Cardinality(HostileSet) = Len(MutKinds) + 2 * Cardinality(HookKinds) + Cardinality(StructClasses) + Cardinality(TextClasses)
              /\ HookKinds \subseteq SeqSet(MutKinds) /\ RadixTexts \subseteq TextClasses /\ NestedTexts \subseteq TextClasses /\ HostileLeads \subseteq PlainSet /\ TinySet \subseteq ArgSet
